@@ -22,6 +22,7 @@ def run(res):
         res.seed += i
         cc.trace_validate(res, 'c08_recorded_%d' % i, 7, 600 if th else 80, 60)
         res.seed -= i
+    cc.apalache_timer_core(res)
     if th:
         # longer waits, dt up to 4, kills in the mix: model checking only (too large to dump)
         S3b = {'g1': (('y', 2), ('y', 5), ('y', 0)), 'g2': (('y', 3), ('y', 0), ('y', 1)), 'g3': (('y', 1), ('y', 2), ('y', 3))}
